@@ -660,6 +660,64 @@ func seq(a, b int) []int {
 	return out
 }
 
+// ---- scenario "clock-value-sweep" ------------------------------------------------------------------------------
+
+type c03ClockCase struct {
+	Block int  `json:"block"` // 1024 consecutive bases (Top: counted down from 2^33-1)
+	Top   bool `json:"top"`
+}
+
+// every base of a dense range x extension {0, 299} through SetPCR and SetOPCR on a packet with a 20-byte field:
+// the 188 bytes must be the ISO serialisation of the value and both getter styles must return it
+func c03CheckClocks(c c03ClockCase) engine.Result {
+	var res engine.Result
+	hdr := ref.Header{Sync: 0x47, PID: 0x111, AFC: 3, CC: 9}
+	payload := make([]byte, 163)
+	for i := range payload {
+		payload[i] = byte(0x40 + i%0x30)
+	}
+	engine.Guard(&res, "clock-value-sweep", func() {
+		for i := 0; i < 1024; i++ {
+			base := uint64(c.Block*1024 + i)
+			if c.Top {
+				base = 1<<33 - 1 - base
+			}
+			for _, ext := range [...]uint64{0, 299} {
+				v := base*300 + ext
+				w := v ^ 0x5A5A5A // another value for the other clock
+				if w >= 300<<33 {
+					w = v / 2
+				}
+				p := packet.Packet(ref.BuildPacket(hdr, &ref.AF{PCR: ref.PCRBytes(1), OPCR: ref.PCRBytes(2)}, 20, payload))
+				af, err := p.AdaptationField()
+				if err != nil {
+					res.Failf("harness|AdaptationField", "%v", err)
+					return
+				}
+				res.Evals++
+				e1, e2 := af.SetPCR(v), af.SetOPCR(w)
+				want := packet.Packet(ref.BuildPacket(hdr, &ref.AF{PCR: ref.PCRBytes(v), OPCR: ref.PCRBytes(w)}, 20, payload))
+				if e1 != nil || e2 != nil || p != want {
+					res.Failf("clock-value-sweep|SetPCR,SetOPCR|packet!=reference", "PCR %d (base %d ext %d), OPCR %d: errors %v %v, bytes 6..17 % x want % x", v, base, ext, w, e1, e2, p[6:18], want[6:18])
+				}
+				g1, ge1 := af.PCR()
+				g2, ge2 := af.OPCR()
+				f1, fe1 := adaptationfield.PCR(&p)
+				f2, fe2 := adaptationfield.OPCR(&p)
+				if ge1 != nil || ge2 != nil || g1 != v || g2 != w || fe1 != nil || fe2 != nil || !bytes.Equal(f1, ref.PCRBytes(v)) || !bytes.Equal(f2, ref.PCRBytes(w)) {
+					res.Failf("clock-value-sweep|getters", "PCR %d OPCR %d: method getters %d %d (%v %v), function-style % x % x (%v %v)", v, w, g1, g2, ge1, ge2, f1, f2, fe1, fe2)
+				}
+				if len(res.Fail) > 6 {
+					return
+				}
+			}
+		}
+	})
+	res.Nontrivial = 2048
+	res.Outcome(c.Block & 0xFF)
+	return res
+}
+
 func init() {
 	boundary := []int{1, 2, 7, 8, 9, 13, 14, 15, 16, 17, 19, 20, 21, 22, 30, 100, 181, 182, 183}
 	engine.Register(&engine.Property{
@@ -683,6 +741,23 @@ func init() {
 					}
 					return 2
 				}, nil),
+			&engine.Enum[c03ClockCase]{
+				Name: "clock-value-sweep",
+				Rule: "EVERY clock base in 0..2^17-1 (thorough 0..2^21-1) and in the top 2^14 bases below 2^33, each with extension 0 and 299, through SetPCR and SetOPCR (the second clock with another value) on a packet with a 20-byte field: the 188 bytes equal the reference serialisation, method getters return the values, function-style getters return the six ISO bytes",
+				Gen: func(r *engine.Run, emit func(c03ClockCase)) {
+					lo := 128
+					if r.Thorough() {
+						lo = 2048
+					}
+					for b := 0; b < lo; b++ {
+						emit(c03ClockCase{b, false})
+					}
+					for b := 0; b < 16; b++ {
+						emit(c03ClockCase{b, true})
+					}
+				},
+				Check: c03CheckClocks, Batch: 4,
+			},
 			c03BFS("boundary-lengths-deep",
 				"same alphabet and oracle, BFS to depth 4 (quick) / to closure or the state cap (thorough) on the boundary lengths {1,2,7,8,9,13..17,19..22,30,100,181,182,183} from the empty and 4 pre-populated fields, and from the packet behind packet.NewAdaptationField()",
 				func(r *engine.Run) []int { return append(c03Inits(boundary, []int{0, 1, 2, 3, 4}), c03InitNewAF) },
